@@ -8,6 +8,7 @@ import (
 	"context"
 	"errors"
 	"fmt"
+	"sync"
 	"time"
 
 	"github.com/filecoin-project/go-f3/ec"
@@ -32,6 +33,7 @@ func (t *TS) String() string       { return fmt.Sprintf("ts@%d", t.E) }
 var _ ec.TipSet = (*TS)(nil)
 
 type Model struct {
+	mu        sync.Mutex
 	ByKey     map[string]*TS
 	Head      *TS
 	Finalized [][]byte
@@ -42,11 +44,25 @@ var _ ec.Backend = (*Model)(nil)
 
 func New() *Model { return &Model{ByKey: map[string]*TS{}, Calls: map[string]int{}} }
 
-func (m *Model) Add(ts *TS) *TS { m.ByKey[string(ts.K)] = ts; return ts }
+func (m *Model) Add(ts *TS) *TS {
+	m.mu.Lock()
+	defer m.mu.Unlock()
+	m.ByKey[string(ts.K)] = ts
+	return ts
+}
+
+// SetHead moves the EC head (safe while a node is using the model).
+func (m *Model) SetHead(ts *TS) {
+	m.mu.Lock()
+	defer m.mu.Unlock()
+	m.Head = ts
+}
 
 func (m *Model) GetTipsetByEpoch(_ context.Context, epoch int64) (ec.TipSet, error) {
+	m.mu.Lock()
+	defer m.mu.Unlock()
 	m.Calls["GetTipsetByEpoch"]++
-	ts := m.AtEpoch(epoch)
+	ts := m.atEpoch(epoch)
 	if ts == nil {
 		return nil, fmt.Errorf("no tipset at or before epoch %d on the head chain", epoch)
 	}
@@ -56,6 +72,12 @@ func (m *Model) GetTipsetByEpoch(_ context.Context, epoch int64) (ec.TipSet, err
 // AtEpoch: the tipset of the head's chain at epoch, or the latest one before
 // it if that epoch is null; nil if the epoch lies beyond the head.
 func (m *Model) AtEpoch(epoch int64) *TS {
+	m.mu.Lock()
+	defer m.mu.Unlock()
+	return m.atEpoch(epoch)
+}
+
+func (m *Model) atEpoch(epoch int64) *TS {
 	if m.Head == nil || epoch > m.Head.E {
 		return nil
 	}
@@ -67,6 +89,8 @@ func (m *Model) AtEpoch(epoch int64) *TS {
 }
 
 func (m *Model) GetTipset(_ context.Context, k gpbft.TipSetKey) (ec.TipSet, error) {
+	m.mu.Lock()
+	defer m.mu.Unlock()
 	m.Calls["GetTipset"]++
 	ts, ok := m.ByKey[string(k)]
 	if !ok {
@@ -76,6 +100,8 @@ func (m *Model) GetTipset(_ context.Context, k gpbft.TipSetKey) (ec.TipSet, erro
 }
 
 func (m *Model) GetHead(context.Context) (ec.TipSet, error) {
+	m.mu.Lock()
+	defer m.mu.Unlock()
 	m.Calls["GetHead"]++
 	if m.Head == nil {
 		return nil, errors.New("no head")
@@ -84,6 +110,8 @@ func (m *Model) GetHead(context.Context) (ec.TipSet, error) {
 }
 
 func (m *Model) GetParent(_ context.Context, t ec.TipSet) (ec.TipSet, error) {
+	m.mu.Lock()
+	defer m.mu.Unlock()
 	m.Calls["GetParent"]++
 	ts, ok := m.ByKey[string(t.Key())]
 	if !ok || ts.Parent == nil {
@@ -93,6 +121,8 @@ func (m *Model) GetParent(_ context.Context, t ec.TipSet) (ec.TipSet, error) {
 }
 
 func (m *Model) GetPowerTable(_ context.Context, k gpbft.TipSetKey) (gpbft.PowerEntries, error) {
+	m.mu.Lock()
+	defer m.mu.Unlock()
 	m.Calls["GetPowerTable"]++
 	ts, ok := m.ByKey[string(k)]
 	if !ok {
@@ -104,6 +134,8 @@ func (m *Model) GetPowerTable(_ context.Context, k gpbft.TipSetKey) (gpbft.Power
 }
 
 func (m *Model) Finalize(_ context.Context, k gpbft.TipSetKey) error {
+	m.mu.Lock()
+	defer m.mu.Unlock()
 	m.Finalized = append(m.Finalized, k)
 	return nil
 }
